@@ -16,6 +16,10 @@ CHECKS = {
  "C03": dict(cat="exploration", tech="bounded-exhaustive input enumeration on the real parser: all byte strings / token sequences up to a length, all 1- and 2-deviation layouts of a document universe, compared with the model AST",
    text="Totality: every string over a 16-byte alphabet up to length 5 (thorough 6), every sequence of <=3 (4) tokens from a 50-token alphabet, every prefix / token deletion / duplication of the document universe, 22 pumping families to 64 KiB. Faithfulness: ~400 documents covering every definition kind and optional part, each under the baseline layout and every single layout deviation (each token boundary x 9 fillers, each separator slot x {; none}, each quote, each integer spelling), thorough: all pairs of deviations on the 60 smallest documents; AST compared field by field with the AST prescribed by the property.",
    note="Bytes >= 0x80 and control characters are outside the alphabets. The only timed oracle is 20 s for <= 64 KiB (observed < 0.1 s). Comments and throws requiredness are not compared.", ref="§3 C03"),
+
+ "C17": dict(cat="exploration", tech="bounded-exhaustive round trip parse -> DumpIDL -> parse on a document universe incl. every string <=3 (4) over a 9-symbol alphabet at every literal position",
+   text="For every document of the C03 universe, the valid multi-file interplay program, every literal position (17 positions incl. annotations on every node kind, include and cpp_include paths) x every string of length <=3 (thorough 4) over {a \" ' & < # \\ ; space} x both quote styles, doubles at the int64 boundary, argument/throws lists of every length pair 0..3 x 0..3: the dumped text must parse, the re-parsed AST must equal the original field by field (comments excluded, double may become an equal integer), and semantic validity must be preserved.",
+   note="Sources the parser rejects are outside the universe. The trimmer binary's -r mode is covered by C16. One recorded finding (odd backslashes before a double quote).", ref="§3 C17"),
 }
 NA = {}
 def main():
